@@ -239,6 +239,22 @@ theorem consumer_child_of_producer_partial (st st2 : St) (c p : Nat) (r : Rid) (
   obtain ⟨hv, hd, _⟩ := hlinks p hs hpc
   exact ⟨hd, hv⟩
 
+/-- **PythonJob.call, partial** — the same for every resource argument of `j.call(f, a₁, …, aₙ)`: when the call returns, each
+argument `r` produced by another job `p` has `p` among the parents, and every file that travels with `r` — `r` itself **and all
+members of its resource group, also when only one member was passed** — is both among the consumer's inputs and among the
+producer's internal outputs (so `upload_eq_download_partial`'s pairs are in the submitted plan). -/
+theorem pycall_links_partial (st st' : St) (c : Nat) (rs : List Rid) (h : applyRefs st c rs = .ok st')
+    (r : Rid) (hr : r ∈ rs) (p : Nat) (hs : st.source r = some p) (hpc : p ≠ c) :
+    p ∈ (st'.job c).deps ∧ ∀ n ∈ st.expandFiles r, n ∈ (st'.job c).inputs ∧ n ∈ (st'.job p).internalOut :=
+  (applyRefs_spec c rs st st' h).2.2 r hr p hs hpc
+
+/-- a single member of a resource group travels with its whole group: both the consumer's inputs and the producer's internal
+outputs receive every member -/
+theorem member_travels_with_group (st : St) (n g : Nat) (f : FileRes) (gr : GroupRes) (hf : st.file? n = some f)
+    (hg : f.group = some g) (hgr : st.group? g = some gr) :
+    st.expandFiles (.file n) = n :: gr.members.map (·.2) := by
+  simp [St.expandFiles, hf, hg, hgr]
+
 /-- the links are never removed while the rest of the command is interpolated -/
 theorem links_persist_within_command (st st' : St) (c : Nat) (ts : List Tok) (acc out : Str)
     (h : interpolateToks st c ts acc = .ok (st', out)) (j : Nat) :
